@@ -347,7 +347,9 @@ func (s *socket) MaybeUpgrade(transport transports.Transport) {
 
 	// we force a polling cycle to ensure a fast upgrade
 	check = func() {
+		utils.VerifYield("upgrade.check.tick", s.id)
 		if transports.POLLING == s.Transport().Name() && s.Transport().Writable() {
+			utils.VerifYield("upgrade.check.writable", s.id)
 			socket_log.Debug("writing a noop packet to polling for fast upgrade")
 			s.Transport().Send([]*packet.Packet{{Type: packet.NOOP}})
 		}
@@ -427,6 +429,7 @@ func (s *socket) clearTransport() {
 // `transport error`, `server close`, `transport close`
 func (s *socket) OnClose(reason string, description ...error) {
 	if s.ReadyState() != "closed" {
+		utils.VerifYield("socket.OnClose.window", s.id, reason)
 		description = append(description, nil)
 
 		s.SetReadyState("closed")
@@ -549,6 +552,7 @@ func (s *socket) Close(discard bool) {
 	if s.ReadyState() != "open" {
 		return
 	}
+	utils.VerifYield("socket.Close.window", s.id)
 
 	s.SetReadyState("closing")
 
